@@ -25,8 +25,7 @@ SPELL = {
 VERDICTS = list(SPELL)
 
 
-class Boom(Exception):
-    pass
+from booms import CbBoom as Boom, boom  # noqa: E402
 
 
 def make_pred(table, ser, calls=None):
@@ -67,7 +66,7 @@ def make_pred(table, ser, calls=None):
         if tag == "retOther":
             return 1
         if tag == "raiseOther":
-            raise Boom()
+            raise boom()
         raise AssertionError(tag)
 
     return pred
